@@ -25,6 +25,10 @@
 (*   Render(page)        the atoms of the wikitext an author writes           *)
 (*   TreeOf(page)        the tree the property demands                        *)
 (*   MachineTree(a, Dev) Encode + Lex + handlers run on atoms a               *)
+(*   RunFrom(tab, a, Dev) the same on a page whose cookie table already is    *)
+(*                       `tab` (page history: the table is emptied by         *)
+(*                       start_page() only; _save_value re-uses the cookie of *)
+(*                       an identical construct)                              *)
 (*                                                                            *)
 (* Dev = {} is the ideal parser.  Behaviours found in the repository:          *)
 (*   "CaptionSwallowsDataCells"  table_cell_fn: a | line after a caption stays *)
@@ -265,13 +269,37 @@ FirstMatch(s, i, kind) ==   \* leftmost position >= i where a bracket group of t
   ELSE IF s[i] \in {"[", "{"} /\ MatchK(s, i, kind) > 0 THEN i
   ELSE FirstMatch(s, i + 1, kind)
 
-RECURSIVE EncodeLoop(_)
-EncodeLoop(e) ==
+\* The cookie table is STATE OF THE PAGE (Wtp.cookies / Wtp.rev_ht): start_page() empties it,
+\* every parse() / expand() on the page goes on filling it.  _save_value gives a construct
+\* that is identical - same kind, same argument strings, character by character - the cookie
+\* it was given before and every other construct a new one (the key must be injective:
+\* magic_fn decodes a cookie with the arguments stored under it).
+\* What-if switches (never part of a Dev the harness passes; Demo_ParserStruct_cookiekey.cfg
+\* lets TLC show that each of them breaks the law on the universes "PAIR"/"HIST"):
+\*   "KeyDropsEdgeLineBreaks"  the key ignores line breaks at the edges of an argument
+\*   "KeyTrimsArguments"       the key ignores blanks and line breaks at the edges
+\*   "KeyIgnoresKind"          the key ignores the kind of bracket
+WhatIfKeyDevs == {"KeyDropsEdgeLineBreaks", "KeyTrimsArguments", "KeyIgnoresKind"}
+RECURSIVE LStripNL(_), RStripNL(_)
+LStripNL(s) == IF Len(s) > 0 /\ s[1] = "NL" THEN LStripNL(Tail(s)) ELSE s
+RStripNL(s) == IF Len(s) > 0 /\ s[Len(s)] = "NL" THEN RStripNL(SubSeq(s, 1, Len(s) - 1)) ELSE s
+CkKey(c, dev) ==
+  LET A(x) == IF "KeyTrimsArguments" \in dev THEN RStrip(LStrip(x))
+              ELSE IF "KeyDropsEdgeLineBreaks" \in dev THEN RStripNL(LStripNL(x)) ELSE x
+  IN [kind |-> IF "KeyIgnoresKind" \in dev THEN "*" ELSE c.kind, args |-> [k \in 1..Len(c.args) |-> A(c.args[k])]]
+\* _save_value: [idx |-> cookie number, cookies |-> table afterwards]
+SaveValue(cookies, c, dev) ==
+  LET hit == {k \in 1..Len(cookies) : CkKey(cookies[k], dev) = CkKey(c, dev)}
+  IN IF hit # {} THEN [idx |-> CHOOSE k \in hit : \A m \in hit : k <= m, cookies |-> cookies]
+     ELSE [idx |-> Len(cookies) + 1, cookies |-> Append(cookies, c)]
+
+RECURSIVE EncodeLoop(_, _)
+EncodeLoop(e, dev) ==
   LET s == e.text
-      n == Len(e.cookies)
       Put(i, j, kind, args) ==
-        EncodeLoop([text |-> SubSeq(s, 1, i - 1) \o <<CkAtom(n + 1)>> \o SubSeq(s, j + 1, Len(s)),
-                    cookies |-> Append(e.cookies, [kind |-> kind, args |-> args])])
+        LET sv == SaveValue(e.cookies, [kind |-> kind, args |-> args], dev) IN
+        EncodeLoop([text |-> SubSeq(s, 1, i - 1) \o <<CkAtom(sv.idx)>> \o SubSeq(s, j + 1, Len(s)),
+                    cookies |-> sv.cookies], dev)
       Arg3(t, i) == BraceAt(t, i, 3)
       Tpl2(t, i) == BraceAt(t, i, 2)
       l == FirstMatch(s, 1, "L")
@@ -283,17 +311,20 @@ EncodeLoop(e) ==
      THEN LET j == ExtAt(s, x)
               inner == SubSeq(s, x + 1, j - 1)
           IN IF StartsUrl(inner) THEN Put(x, j, "E", <<inner>>)
-             ELSE EncodeLoop([e EXCEPT !.text = SubSeq(s, 1, x - 1) \o <<LB>> \o inner \o <<RB>> \o SubSeq(s, j + 1, Len(s))])
+             ELSE EncodeLoop([e EXCEPT !.text = SubSeq(s, 1, x - 1) \o <<LB>> \o inner \o <<RB>> \o SubSeq(s, j + 1, Len(s))], dev)
      ELSE IF a > 0 THEN Put(a, Arg3(s, a), "A", SplitBar(SubSeq(s, a + 3, Arg3(s, a) - 3)))
      ELSE IF t > 0 THEN Put(t, Tpl2(s, t), "T", SplitBar(SubSeq(s, t + 2, Tpl2(s, t) - 2)))
      ELSE e
 Unbracket(s) == [i \in 1..Len(s) |-> IF s[i] = LB THEN "[" ELSE IF s[i] = RB THEN "]" ELSE s[i]]
-Encode(atoms) ==
-  LET e == EncodeLoop([text |-> atoms, cookies |-> <<>>])
+\* _encode on a page whose cookie table is `tab`; `tab` afterwards = the table the next call starts from
+EncodeFrom(tab, atoms, dev) ==
+  LET e == EncodeLoop([text |-> atoms, cookies |-> tab], dev)
   IN [text |-> Unbracket(e.text),
+      tab |-> e.cookies,
       cookies |-> [i \in 1..Len(e.cookies) |->
                      [kind |-> e.cookies[i].kind,
                       args |-> [k \in 1..Len(e.cookies[i].args) |-> Unbracket(e.cookies[i].args[k])]]]]
+Encode(atoms) == EncodeFrom(<<>>, atoms, {})      \* first call after start_page
 
 (* ------------------------------------------------------------------------ *)
 (* Lex: parser.py token_iter at atom level                                   *)
@@ -886,11 +917,17 @@ MagicFn(st0, ck) ==
 (* ---- parse_encoded ---- *)
 RECURSIVE PopAll(_)
 PopAll(st) == IF Len(st.stack) = 1 THEN st ELSE PopAll(Pop(st, TRUE))
-Run(atoms, Dev) ==
-  LET e == Encode(atoms)
+\* parse() on a page whose cookie table is `tab` (the state start_page() resets); the state
+\* returned carries the table the next parse() / expand() on the same page starts from
+RunFrom(tab, atoms, Dev) ==
+  LET e == EncodeFrom(tab, atoms, Dev)
       root == [Frame("ROOT") EXCEPT !.largs = <<<<Str(<<"Pg">>)>>>>]
       st0 == [stack |-> <<root>>, bol |-> TRUE, wbol |-> FALSE, beg |-> 0, ck |-> e.cookies, dev |-> Dev,
-              oof |-> FALSE, cov |-> {}]
+              oof |-> FALSE, cov |-> {}, tab |-> e.tab]
   IN PopAll(ProcessText(st0, e.text))
+Run(atoms, Dev) == RunFrom(<<>>, atoms, Dev)       \* start_page(); parse()
+\* expand() is modelled only by what it leaves behind for later parses of the page: the
+\* cookies of its text (what it returns is the subject of other properties)
+TabAfterExpand(tab, atoms, Dev) == EncodeFrom(tab, atoms, Dev).tab
 MachineTree(atoms, Dev) == Run(atoms, Dev).stack[1]
 =============================================================================
